@@ -10,6 +10,9 @@ CLAIMED = {
  "C07": ("DESIGN.md 4/C07",
    "Proof of function contracts: lang.InstrSwitch never reaches its panic for any of the closed set of ssa.Instruction kinds (MultiConvert excluded by precondition) and dispatches each kind to the visitor method of that kind. Termination/crash-freedom of the analyses as wholes is not proved.",
    "Trusted: as C05. MultiConvert exclusion relies on loaders using ssa.InstantiateGenerics. Fixpoint termination is a whole-history argument outside function contracts."),
+ "C08": ("DESIGN.md 4/C08",
+   "Proof of function contracts: every Do* method of the intra-procedural analysis transfers the marks of each data operand of its instruction kind to the result (quantified over the index for Phi edges and Select states); simpleTransfer/transfer delegate with the same arguments; addReturnEdge adds the edge for every in-range tuple index and never indexes out of range; addCallArgEdge adds the edge to every argument position of every callee node holding the value (map iteration in arbitrary order); FindArg's contract. The composition (markValue alias recursion, worklist fixpoint) is not proved.",
+   "Trusted: as C05; assumed frame of (*SummaryGraph).addEdge (modifies only edge records). Not decided: Pre/mergeInto join, RunForwardIterative closure, makeEdgesAt* coverage."),
  "C18": ("DESIGN.md 4/C18",
    "Proof of function contract: reachability's instruction visitor calls visit on every operand slot of every instruction kind (quantified over the index for variadic slots; loop invariants inferred Houdini-style and checked). Whole-program conservativeness w.r.t. executions is not proved.",
    "Trusted: as C05; assumed contract (*ssa.Call).Common() == &c.Call etc. (deps.spec). Excepted slots: MultiConvert.X, SliceToArrayPointer.X, Defer.DeferStack (cannot hold function values)."),
